@@ -137,6 +137,14 @@ structure Cfg where
   modelled) -/
   inflate : Bytes → Option Bytes
 
+/-- A started, unfinished data message: type of the first frame, whether its RSV1 bit was set,
+the (unmasked) payload bytes so far. -/
+structure Frag where
+  typ : Nat
+  compressed : Bool
+  acc : Bytes
+deriving Repr, DecidableEq
+
 /-- the 4 bytes RFC 7692 §7.2.2 tells the receiver to append before inflating -/
 def deflateTail : Bytes := [0x00, 0x00, 0xff, 0xff]
 
